@@ -48,6 +48,7 @@ type Node struct {
 
 	bc     *blockchain.Blockchain
 	bcTip  wire.Hash
+	fixedBC *blockchain.Blockchain
 	bcN    int
 	sm     *netsync.SyncManager
 	pool   *blockchain.TxPool
@@ -336,6 +337,9 @@ func (s *Server) TxMemPool() *blockchain.TxPool { return s.N.pool }
 // database at the current tip; it is rebuilt when the tip changed.
 func (s *Server) Blockchain() *blockchain.Blockchain {
 	n := s.N
+	if n.fixedBC != nil {
+		return n.fixedBC
+	}
 	if n.bc != nil && n.bcTip == n.Tip().Hash {
 		return n.bc
 	}
@@ -375,3 +379,9 @@ func (s *Server) SyncManager() *netsync.SyncManager {
 	}
 	return sharedSM
 }
+
+// FixBlockchain makes Server.Blockchain() return bc for this node instead of building a
+// consensus object over the node's own database (each one leaks ~3 MB and a goroutine).
+// Only for scenarios in which the wallet uses it for listener registration and start-up
+// logging (its BestBlockHeight is NOT this node's height).
+func (n *Node) FixBlockchain(bc *blockchain.Blockchain) { n.fixedBC = bc }
